@@ -202,8 +202,8 @@ class EvalContext(metaclass=NamespaceableMeta):
         finally:
             self._eval_cache.clear()
             self._eval_cache_id.clear()
-            self._unsafe_evaluated.clear()
-            self._unsafe_evaluated_id.clear()
+            # which values are unsafe is remembered until the next evaluation: functions created by the evaluated code
+            # can be called later and look config entries up then (under the same rules as during the evaluation)
             self._cfg = None
             self._ecfg = None
 
